@@ -252,7 +252,7 @@ impl<'c> Rw<'c> {
                         }
                     }
                 }
-                self.cx.refuse("ok_or chain of unknown shape", sp);
+                // any other `X.ok_or(E)?` : the generic `?` desugaring below, `X.ok_or(E)` itself by desugar_combinator
             }
         }
         parse_quote!( match #inner { Ok(__v) => __v, Err(__e) => return Err(From::from(__e)) } )
@@ -285,7 +285,71 @@ impl<'c> Rw<'c> {
                 }
             }
         }
-        if ["map_err", "and_then", "ok_or", "filter", "then_some", "ok_or_else", "map_or", "or_else"].contains(&m.as_str()) {
+        // X.map_or_else(|| D, |v| F)  (Option)   /   X.map_or_else(|e| D, |v| F)  (Result)
+        if m == "map_or_else" && mc.args.len() == 2 {
+            if let (Expr::Closure(d), Expr::Closure(f)) = (&mc.args[0], &mc.args[1]) {
+                if f.inputs.len() == 1 {
+                    let r = &mc.receiver; let (db, fb, fp) = (&d.body, &f.body, &f.inputs[0]);
+                    if d.inputs.is_empty() {
+                        self.cx.rule("R4.map_or_else");
+                        return Some(parse_quote!( match #r { Some(#fp) => #fb, None => #db } ));
+                    } else if d.inputs.len() == 1 {
+                        let dp: Pat = match &d.inputs[0] { Pat::Wild(_) => parse_quote!(_e), p => p.clone() };
+                        self.cx.rule("R4.map_or_else");
+                        return Some(parse_quote!( match #r { Ok(#fp) => #fb, Err(#dp) => #db } ));
+                    }
+                }
+            }
+        }
+        // X.unwrap_or_else(|| D)  (Option)   /   X.unwrap_or_else(|e| D)  (Result)
+        if m == "unwrap_or_else" && mc.args.len() == 1 {
+            if let Expr::Closure(d) = &mc.args[0] {
+                let r = &mc.receiver; let db = &d.body;
+                if d.inputs.is_empty() {
+                    self.cx.rule("R4.unwrap_or_else");
+                    return Some(parse_quote!( match #r { Some(__v) => __v, None => #db } ));
+                } else if d.inputs.len() == 1 {
+                    let dp: Pat = match &d.inputs[0] { Pat::Wild(_) => parse_quote!(_e), p => p.clone() };
+                    self.cx.rule("R4.unwrap_or_else");
+                    return Some(parse_quote!( match #r { Ok(__v) => __v, Err(#dp) => #db } ));
+                }
+            }
+        }
+        // X.ok_or(E) / X.ok_or_else(|| E)   (Option -> Result)
+        if m == "ok_or" && mc.args.len() == 1 {
+            let r = &mc.receiver; let e = &mc.args[0];
+            if !matches!(&**r, Expr::MethodCall(x) if x.method == "and_then") {
+                self.cx.rule("R4.ok_or");
+                return Some(parse_quote!( match #r { Some(__v) => Ok(__v), None => Err(#e) } ));
+            }
+        }
+        if m == "ok_or_else" && mc.args.len() == 1 {
+            if let Expr::Closure(d) = &mc.args[0] {
+                if d.inputs.is_empty() {
+                    let r = &mc.receiver; let db = &d.body;
+                    self.cx.rule("R4.ok_or");
+                    return Some(parse_quote!( match #r { Some(__v) => Ok(__v), None => Err(#db) } ));
+                }
+            }
+        }
+        // X.map_err(|e| B)  not followed by `?`   (Result)
+        if m == "map_err" && mc.args.len() == 1 {
+            let r = &mc.receiver;
+            match &mc.args[0] {
+                Expr::Closure(c) if c.inputs.len() == 1 => {
+                    let b = &c.body;
+                    let ep: Pat = match &c.inputs[0] { Pat::Wild(_) => parse_quote!(_e), p => p.clone() };
+                    self.cx.rule("R4.map_err_closure");
+                    return Some(parse_quote!( match #r { Ok(__v) => Ok(__v), Err(#ep) => Err(#b) } ));
+                }
+                Expr::Path(p) => {
+                    self.cx.rule("R4.map_err_path");
+                    return Some(parse_quote!( match #r { Ok(__v) => Ok(__v), Err(__e) => Err(#p(__e)) } ));
+                }
+                _ => {}
+            }
+        }
+        if ["map_err", "and_then", "ok_or", "filter", "then_some", "ok_or_else", "map_or", "or_else", "map_or_else", "unwrap_or_else"].contains(&m.as_str()) {
             self.cx.refuse(&format!("combinator `.{}(..)` outside the R4 shapes", m), sp);
         }
         None
@@ -679,7 +743,11 @@ fn process_items(cx: &mut Ctx, items: Vec<Item>, impl_counter: &mut usize) {
                         let _ = writeln!(cx.out, "pub const {}: [u8; {}] = [{}];", c.ident, n, hexlist(&bytes));
                     }
                 } else {
-                    cx.refuse(&format!("const {} with non-byte-string initialiser", c.ident), c.ident.span());
+                    // any other constant is emitted verbatim (Verus accepts simple constant expressions)
+                    cx.rule("R13");
+                    emit_marker(cx, "const_plain", &key, line, "");
+                    c.vis = parse_quote!(pub);
+                    let _ = writeln!(cx.out, "{}", ts(c));
                 }
             }
             Item::Static(s) => {
